@@ -294,6 +294,13 @@ func judgeTod(c TodCase) *eng.Fail {
 		if o.err == nil {
 			return eng.F("C19/useTimezone-unknown-zone", "useTimezone(t, %q) must fail for an unknown zone, got %s", c.Target, show(o.val))
 		}
+		// and again: an unknown zone stays unknown however often it is asked for
+		for rep := 0; rep < 2; rep++ {
+			o2, _ := evalWith("useTimezone(t, z)", data)
+			if o2.panicked || o2.err == nil {
+				return eng.F("C19/useTimezone-unknown-zone", "useTimezone(t, %q) asked again (attempt %d) must still fail, got %s %s", c.Target, rep+2, show(o2.val), o2.panicMsg)
+			}
+		}
 		outcome("unknown zone")
 		return nil
 	}
